@@ -29,25 +29,31 @@ def gen(rng, tier):
     cfg = g.Cfg(base=base, disc=disc, sfx=sfx, ts=rng.random() < 0.25, crit=("s%d" % rng.choice([0, 6, 30])) if rot else None, naming=naming,
                 cleanup=rng.choice(["n", "n", "l2", "g1", "b1.1"]) if rot else "n", link=rng.random() < 0.6,
                 append=rng.random() < 0.3, cap=rng.choice([None, None, 16]))
-    ops = ["B:" + cfg.token()]
-    if rng.random() < 0.3:
-        ops += ["SN", "Q:%s:~" % rng.choice(["100", "111", "001"])]
+    ops = []
     n = 0
-    for _ in range(rng.randint(1, 9)):
-        r = rng.random()
-        if r < 0.5:
-            ops.append("W:" + g.hx(b"%c%d__\n" % (65 + n % 26, n)))
-            n += 1
-        elif r < 0.62:
-            ops.append("T")
-        elif r < 0.72:
-            ops.append("K:%d" % rng.choice([1, 2, 61, 3600]))
-        else:
-            custom = "~"
-            if naming.startswith("cu.") and naming.split(".")[1] != "~" and rng.random() < 0.5:
-                custom = naming.split(".")[1]
-            ops += ["F", "SN", "Q:%s:%s" % (rng.choice(["100", "110", "111", "001", "010", "000", "101"]), custom)]
-    ops += ["F", "SN", "Q:111:~", "S", "SN"]
+    runs = rng.choice([1, 1, 2, 3])
+    for run in range(runs):
+      # (a later run starts on the files of the earlier ones: what is listed before its first write?)
+      ops.append("B:" + cfg.token())
+      if rng.random() < (0.3 if run == 0 else 0.7):
+        ops += ["SN", "Q:%s:~" % rng.choice(["100", "111", "001", "000", "110"])]
+      for _ in range(rng.randint(1 if run == 0 else 0, 9 if runs == 1 else 5)):
+          r = rng.random()
+          if r < 0.5:
+              ops.append("W:" + g.hx(b"%c%d__\n" % (65 + n % 26, n)))
+              n += 1
+          elif r < 0.62:
+              ops.append("T")
+          elif r < 0.72:
+              ops.append("K:%d" % rng.choice([1, 2, 61, 3600]))
+          else:
+              custom = "~"
+              if naming.startswith("cu.") and naming.split(".")[1] != "~" and rng.random() < 0.5:
+                  custom = naming.split(".")[1]
+              ops += ["F", "SN", "Q:%s:%s" % (rng.choice(["100", "110", "111", "001", "010", "000", "101"]), custom)]
+      ops += ["F", "SN", "Q:111:~", "S", "SN"]
+      if rng.random() < 0.5:
+        ops.append("K:%d" % rng.choice([1, 5]))
     return "flw %d 0 ; %s" % (g.T0, " ".join(ops))
 
 
@@ -74,23 +80,7 @@ def search(rng, tier, disagreeing):
 
 
 def classify(body, impl, verdict):
-    if body.startswith("tryfrom "):
-        return "try-from-bare-file-name" if "2f" not in body.split(" ")[1] else None
-    toks = body.split(" ; ", 1)[1].split(" ")
-    c = next(t for t in toks if t.startswith("B:"))[2:].split(",")
-    if g.s1_class(c, toks):
-        return "suffix-sorts-after-restart-siblings"
-    if c[3] == "~" and ("listing" in verdict):
-        return "no-suffix-listing"
-    if "listing" in verdict and c[6] == "~":
-        return "listing-without-rotation"
-    if "listing" in verdict:
-        # before the first write the rotated files are not listed
-        i = next((k for k, t in enumerate(toks) if t.startswith("Q:")), None)
-        if i is not None and not any(t.startswith(("W:", "P:")) for t in toks[:i]):
-            return "listing-before-the-first-write"
-    if "file-not-named-as-documented" in verdict and c[1] == "-":
-        return "empty-discriminant"
+    """no recorded finding is left for this property: every failure is reported"""
     return None
 
 
